@@ -71,3 +71,9 @@ Definition api_hidden (ap : api_path) : Prop := ap_hidden ap <> 0.
 
 (* the hidden reasons the API enum has a name for (HiddenReasonNone .. HiddenReasonOTCMismatch) *)
 Definition reason_named (p : path) : Prop := p_hidden p <= 6.
+
+(* ---- histories: a state of the process in which every address stored in the attribute cache has
+   been allocated (true of the initial state and kept by every conversion; it also covers entries
+   made by other users of the cache, whose blocks live at already allocated addresses) *)
+Definition heap_ok (h : heap) : Prop :=
+  forall k v, In (k, v) (h_cache h) -> ck_nh k < h_next h.
